@@ -60,6 +60,10 @@ pub enum Mut {
     AppendGarbage,
     /// the file gets the output for a different enum
     ReplaceBy(String),
+    /// the file's content is prefixed with bytes that are not UTF-8
+    NonUtf8,
+    /// a directory sits where the file should be
+    Directory,
 }
 
 #[derive(Clone, Debug, PartialEq)]
@@ -69,6 +73,8 @@ pub enum Step {
     Print { fmt: bool, plan: Plan },
     Edit { source: String },
     Mutate(Mut),
+    /// the input file becomes unusable: "NonUtf8" | "Missing" | "NotRust" | "Empty" (until the next Edit)
+    BreakInput(String),
 }
 
 #[derive(Clone, Debug)]
@@ -102,6 +108,7 @@ impl Step {
                 Mut::ReplaceBy(s) => json!({"op": "Mutate", "kind": "ReplaceBy", "source": s}),
                 other => json!({"op": "Mutate", "kind": format!("{:?}", other)}),
             },
+            Step::BreakInput(k) => json!({"op": "BreakInput", "kind": k}),
         }
     }
     fn from_json(v: &Value) -> Option<Step> {
@@ -122,8 +129,11 @@ impl Step {
                 "Empty" => Mut::Empty,
                 "AppendGarbage" => Mut::AppendGarbage,
                 "ReplaceBy" => Mut::ReplaceBy(v.get("source")?.as_str()?.to_string()),
+                "NonUtf8" => Mut::NonUtf8,
+                "Directory" => Mut::Directory,
                 _ => return None,
             }),
+            "BreakInput" => Step::BreakInput(v.get("kind")?.as_str()?.to_string()),
             _ => return None,
         })
     }
@@ -353,6 +363,40 @@ pub struct Outcome {
     pub violation: Option<Violation>,
 }
 
+/// What sits at the output path: nothing, a file with these bytes, or a directory.
+#[derive(Clone, PartialEq, Debug)]
+enum FileState {
+    Missing,
+    File(Vec<u8>),
+    Dir,
+}
+impl FileState {
+    fn read(p: &Path) -> FileState {
+        match std::fs::metadata(p) {
+            Err(_) => FileState::Missing,
+            Ok(m) if m.is_dir() => FileState::Dir,
+            Ok(_) => std::fs::read(p).map(FileState::File).unwrap_or(FileState::Missing),
+        }
+    }
+    fn bytes(&self) -> Option<&[u8]> {
+        match self {
+            FileState::File(b) => Some(b),
+            _ => None,
+        }
+    }
+    fn describe(&self) -> String {
+        match self {
+            FileState::Missing => "does not exist".into(),
+            FileState::Dir => "is a directory".into(),
+            FileState::File(b) => format!("({} bytes)", b.len()),
+        }
+    }
+}
+fn remove_any(p: &Path) {
+    let _ = std::fs::remove_file(p);
+    let _ = std::fs::remove_dir_all(p);
+}
+
 macro_rules! fail {
     ($oracle:expr, $step:expr, $($fmt:tt)*) => {
         return Some(Violation { oracle: $oracle, step: $step, what: format!($($fmt)*) })
@@ -375,23 +419,48 @@ fn exec_in(world: &World, sc: &Scenario, dir: &Path, stats: &mut Stats) -> Optio
     let mut d = sc.source.clone();
     std::fs::write(&inp, &d).expect("write in.rs");
     let mut dirty = false; // a Mutate or a hard fault happened since the last successful write
+    let mut input_broken: Option<String> = None;
 
     for (i, step) in sc.steps.iter().enumerate() {
         let stepno = i + 1;
         match step {
             Step::Edit { source } => {
                 d = source.clone();
+                remove_any(&inp);
                 std::fs::write(&inp, &d).expect("write in.rs");
+                input_broken = None;
                 stats.hit("env_edit_input");
                 dirty = true;
             }
+            Step::BreakInput(kind) => {
+                remove_any(&inp);
+                match kind.as_str() {
+                    "NonUtf8" => { let mut b = vec![0xffu8, 0xfe, b'\n']; b.extend_from_slice(d.as_bytes()); std::fs::write(&inp, b).expect("write in.rs"); }
+                    "Missing" => {}
+                    "Empty" => std::fs::write(&inp, b"").expect("write in.rs"),
+                    _ => std::fs::write(&inp, b"enum { #[token(\"a\")] ").expect("write in.rs"),
+                }
+                input_broken = Some(kind.clone());
+                stats.hit("env_break_input");
+                dirty = true;
+            }
             Step::Mutate(m) => {
-                let cur = std::fs::read(&outp).ok();
+                let state = FileState::read(&outp);
+                if matches!(m, Mut::Directory) {
+                    remove_any(&outp);
+                    std::fs::create_dir_all(&outp).expect("mkdir out.rs");
+                    stats.hit("env_mutation_directory_in_place_of_file");
+                    dirty = true;
+                    continue;
+                }
+                let cur: Option<Vec<u8>> = state.bytes().map(|b| b.to_vec());
                 let new: Option<Vec<u8>> = match (m, cur) {
                     (Mut::Delete, _) => None,
                     (Mut::Empty, _) => Some(Vec::new()),
                     (Mut::ReplaceBy(src), _) => Some(world.expected_output(src).unwrap_or_default().into_bytes()),
                     (_, None) => { stats.hit("env_mutation_skipped_no_file"); continue; }
+                    (Mut::Directory, _) => unreachable!(),
+                    (Mut::NonUtf8, Some(c)) => { let mut o = vec![0xffu8, 0xfe, b'\n']; o.extend_from_slice(&c); Some(o) }
                     (Mut::ToCrlf, Some(c)) => {
                         let mut o = Vec::new();
                         for (k, &b) in c.iter().enumerate() {
@@ -421,16 +490,41 @@ fn exec_in(world: &World, sc: &Scenario, dir: &Path, stats: &mut Stats) -> Optio
                     (Mut::Truncate(k), Some(mut c)) => { let k = (*k).min(c.len()); c.truncate(k); Some(c) }
                     (Mut::AppendGarbage, Some(mut c)) => { c.extend_from_slice(b"\nfn garbage() {}\n"); Some(c) }
                 };
+                remove_any(&outp);
                 match new {
-                    None => { let _ = std::fs::remove_file(&outp); }
+                    None => {}
                     Some(b) => std::fs::write(&outp, b).expect("mutate out.rs"),
                 }
                 stats.hit(match m {
                     Mut::ToCrlf => "env_mutation_to_crlf", Mut::ToLf => "env_mutation_to_lf", Mut::AddFinalNewline => "env_mutation_add_final_newline",
                     Mut::RemoveFinalNewline => "env_mutation_remove_final_newline", Mut::FlipAlnum(_) => "env_mutation_flip_byte", Mut::Truncate(_) => "env_mutation_truncate",
                     Mut::Delete => "env_mutation_delete", Mut::Empty => "env_mutation_empty", Mut::AppendGarbage => "env_mutation_append_garbage", Mut::ReplaceBy(_) => "env_mutation_replace_by_other_enum",
+                    Mut::NonUtf8 => "env_mutation_non_utf8_content", Mut::Directory => "env_mutation_directory_in_place_of_file",
                 });
                 dirty = true;
+            }
+            Step::Print { .. } | Step::Write { .. } | Step::Check { .. } if input_broken.is_some() => {
+                // K6: with an input that cannot be read or parsed there is no "that output": nothing may report success,
+                // and a check still must not touch the file
+                let (args, plan, is_check): (Vec<&str>, &Plan, bool) = match step {
+                    Step::Print { fmt, plan } => (if *fmt { vec!["in.rs", "--format"] } else { vec!["in.rs"] }, plan, false),
+                    Step::Write { fmt, plan } => (if *fmt { vec!["in.rs", "--output", "out.rs", "--format"] } else { vec!["in.rs", "--output", "out.rs"] }, plan, false),
+                    Step::Check { fmt, plan } => (if *fmt { vec!["in.rs", "--output", "out.rs", "--check", "--format"] } else { vec!["in.rs", "--output", "out.rs", "--check"] }, plan, true),
+                    _ => unreachable!(),
+                };
+                let before = FileState::read(&outp);
+                let inv = world.invoke(dir, &args, plan);
+                stats.invocations += 1;
+                stats.hit("op_invocation_with_broken_input");
+                count_faults(&inv.log, stats);
+                if inv.code == 0 {
+                    fail!("K6-input", stepno, "logos-cli {:?} reported success although the input file is unusable ({})", args, input_broken.as_deref().unwrap_or(""));
+                }
+                if is_check {
+                    let after = FileState::read(&outp);
+                    if after != before { fail!("K1-modified", stepno, "--check changed out.rs: before it {}, after it {}", before.describe(), after.describe()); }
+                    if let Some(l) = touched_out(&inv.log) { fail!("K1-modified", stepno, "--check performed a modifying operation on out.rs: {l}"); }
+                }
             }
             Step::Print { fmt, plan } => {
                 let Some(expected) = world.expected_output(&d) else { fail!("K5-fails", stepno, "logos-cli exits with an error on this enum without any fault injected") };
@@ -459,17 +553,19 @@ fn exec_in(world: &World, sc: &Scenario, dir: &Path, stats: &mut Stats) -> Optio
                 if let Some((o, w)) = world.content_verdict(&d) { fail!(o, stepno, "{}", w); }
                 let mut args = vec!["in.rs", "--output", "out.rs"];
                 if *fmt { args.push("--format"); }
+                let before = FileState::read(&outp);
                 let inv = world.invoke(dir, &args, plan);
                 stats.invocations += 1;
                 stats.hit(if *fmt { "op_write_format" } else { "op_write" });
                 count_faults(&inv.log, stats);
-                let hard = hard_rules(plan, *fmt);
-                let after = std::fs::read(&outp).ok();
+                // an output path that cannot be read as text (not UTF-8) or is not a file is a hard condition of the environment
+                let unreadable = matches!(before, FileState::Dir) || before.bytes().map(|b| std::str::from_utf8(b).is_err()).unwrap_or(false);
+                let hard = hard_rules(plan, *fmt) || unreadable;
+                let after = FileState::read(&outp);
                 if inv.code == 0 {
-                    match &after {
+                    match after.bytes() {
                         Some(a) if model_equal(a, &expected) => {}
-                        Some(a) => fail!("K3-write", stepno, "logos-cli --output reported success but out.rs ({} bytes) does not hold the output for the enum ({} bytes); plan {:?}", a.len(), expected.len(), plan.rules),
-                        None => fail!("K3-write", stepno, "logos-cli --output reported success but out.rs does not exist; plan {:?}", plan.rules),
+                        _ => fail!("K3-write", stepno, "logos-cli --output reported success but out.rs {} and does not hold the output for the enum ({} bytes); plan {:?}, rustfmt {}", after.describe(), expected.len(), plan.rules, plan.rustfmt),
                     }
                     dirty = false;
                 } else {
@@ -477,41 +573,43 @@ fn exec_in(world: &World, sc: &Scenario, dir: &Path, stats: &mut Stats) -> Optio
                         fail!("K3-fails", stepno, "logos-cli --output failed (exit {}) with only transparent faults ({:?}, rustfmt {}): {}", inv.code, plan.rules, plan.rustfmt, inv.stderr.chars().take(300).collect::<String>());
                     }
                     stats.hit("probe_write_failed_under_hard_fault");
-                    if after.as_deref().map(|a| !model_equal(a, &expected)).unwrap_or(false) { stats.hit("probe_torn_or_stale_file_left_by_failed_write"); }
+                    if after.bytes().map(|a| !model_equal(a, &expected)).unwrap_or(false) { stats.hit("probe_torn_or_stale_file_left_by_failed_write"); }
                     dirty = true;
                 }
             }
             Step::Check { fmt, plan } => {
                 let Some(expected) = world.expected_output(&d) else { fail!("K5-fails", stepno, "logos-cli exits with an error on this enum without any fault injected") };
                 if let Some((o, w)) = world.content_verdict(&d) { fail!(o, stepno, "{}", w); }
-                let before = std::fs::read(&outp).ok();
+                let before = FileState::read(&outp);
                 let mut args = vec!["in.rs", "--output", "out.rs", "--check"];
                 if *fmt { args.push("--format"); }
                 let inv = world.invoke(dir, &args, plan);
                 stats.invocations += 1;
                 stats.hit(if *fmt { "op_check_format" } else { "op_check" });
                 count_faults(&inv.log, stats);
-                let after = std::fs::read(&outp).ok();
+                let after = FileState::read(&outp);
                 // K1: read-only
                 if after != before {
-                    fail!("K1-modified", stepno, "--check changed out.rs: before {:?} bytes, after {:?} bytes", before.as_ref().map(|b| b.len()), after.as_ref().map(|b| b.len()));
+                    fail!("K1-modified", stepno, "--check changed out.rs: before it {}, after it {}", before.describe(), after.describe());
                 }
                 if let Some(l) = touched_out(&inv.log) {
                     fail!("K1-modified", stepno, "--check performed a modifying operation on out.rs: {l}");
                 }
                 // K2: verdict
                 let hard = hard_rules(plan, *fmt);
-                let holds = before.as_deref().map(|b| model_equal(b, &expected)).unwrap_or(false);
+                let holds = before.bytes().map(|b| model_equal(b, &expected)).unwrap_or(false);
                 if inv.code == 0 && !holds {
-                    fail!("K2-accepts", stepno, "--check succeeded although out.rs {} (plan {:?}, rustfmt {})",
-                        match &before { None => "does not exist".to_string(), Some(b) => format!("({} bytes) does not hold the output for the enum ({} bytes)", b.len(), expected.len()) }, plan.rules, plan.rustfmt);
+                    fail!("K2-accepts", stepno, "--check succeeded although out.rs {} and does not hold the output for the enum ({} bytes) (plan {:?}, rustfmt {})",
+                        before.describe(), expected.len(), plan.rules, plan.rustfmt);
                 }
                 if inv.code != 0 && holds && !hard {
                     fail!("K2-rejects", stepno, "--check failed (exit {}) although out.rs holds the output for the enum up to line endings (plan {:?}): {}", inv.code, plan.rules, inv.stderr.chars().take(300).collect::<String>());
                 }
                 if dirty { stats.check_after_mutation_or_hard_fault = true; stats.hit("probe_check_after_mutation_or_failed_write"); }
-                if holds && before.as_deref().map(|b| b.contains(&b'\r')).unwrap_or(false) { stats.hit("probe_check_accepts_crlf_file"); }
+                if holds && before.bytes().map(|b| b.contains(&b'\r')).unwrap_or(false) { stats.hit("probe_check_accepts_crlf_file"); }
                 if hard { stats.hit("probe_check_under_hard_fault"); }
+                if matches!(before, FileState::Dir) { stats.hit("probe_check_with_directory_in_place_of_file"); }
+                if before.bytes().map(|b| std::str::from_utf8(b).is_err()).unwrap_or(false) { stats.hit("probe_check_with_non_utf8_file"); }
                 if plan.hash_seed != FIXED_SEED && holds { stats.hit("probe_check_under_other_hash_seed_than_write"); }
             }
         }
@@ -605,7 +703,10 @@ fn gen_scenario(rng: &mut Rng, defs: &[Definition], index: u64, faults: bool) ->
                 approx_len = 4000;
                 Step::Edit { source: if rng.chance(1, 2) { decorate(&other.source, rng) } else { other.source.clone() } }
             }
-            _ => Step::Mutate(match rng.below(12) {
+            _ if rng.chance(1, 14) => Step::BreakInput(rng.pick(&["NonUtf8", "Missing", "NotRust", "Empty"]).to_string()),
+            _ => Step::Mutate(match rng.below(14) {
+                12 => Mut::NonUtf8,
+                13 => Mut::Directory,
                 0 | 1 => Mut::ToCrlf,
                 2 => Mut::ToLf,
                 3 => Mut::AddFinalNewline,
